@@ -89,6 +89,9 @@ func (g *Gen) genStore() Stmt {
 			ops = []string{"+=", "-=", "*="}
 		}
 		op := ops[r.Intn(len(ops))]
+		if op == "%=" && sc.Kind == KI32 && !g.on("op.%.i32") {
+			op = "^="
+		}
 		g.feat("stmt.compound" + op + "." + t.ShapeName())
 		if viaPtrParam {
 			g.feat("ptr-param-compound")
@@ -196,6 +199,7 @@ func (g *Gen) genLocalDecl() Stmt {
 				g.feat("let.composite-load")
 			}
 		}
+		v.ConstInit = Constish(init)
 		g.declare(v)
 		g.feat("decl.let." + kindName(t))
 		return &VarDecl{V: v, Init: init}
@@ -412,6 +416,9 @@ func (g *Gen) genAtomic() Stmt {
 		ptr := &AddrOf{X: q.e, Ty: g.U.Ptr(q.root.Space, q.t, "")}
 		names := []string{"atomicStore", "atomicAdd", "atomicSub", "atomicMax", "atomicMin", "atomicAnd", "atomicOr", "atomicXor", "atomicExchange", "atomicLoad", "atomicCompareExchangeWeak"}
 		name := names[g.R.Intn(len(names))]
+		if !g.on("fn."+name) {
+			name = "atomicAdd"
+		}
 		if !g.on("atomic.cmpxchg") && name == "atomicCompareExchangeWeak" {
 			name = "atomicAdd"
 		}
@@ -521,7 +528,7 @@ func (g *Gen) genStmts(n int) []Stmt {
 		case 5:
 			s = g.genCallStmt()
 		case 6:
-			if g.fx.inLoop && !g.fx.inCont && g.fx.depth > 1 {
+			if g.fx.inLoop && !g.fx.inCont && g.fx.depth > 1 && (g.fx.inSwitch == 0 || g.on("stmt.continue-in-switch")) {
 				// conditional break / continue
 				var t Stmt = &Break{}
 				if g.fx.inSwitch > 0 || r.Bool() {
